@@ -323,17 +323,28 @@ def check_wrappers(chk):
             raise Unrecognised('C15.H', f'{name} not found', None)
         rets = [r for r in walk_no_nested(lf.func) if isinstance(r, ast.Return) and r.value is not None]
         if len(rets) != 1:
-            chk.bad('C15.H', lf.mod, lf.pyname, f'{name}: {len(rets)} value returns',
-                    f'{name} must return exactly the host operation on its validated arguments; it has {len(rets)} return paths ({"; ".join(norm(r.value)[:40] for r in rets)})', node=lf.func)
+            chk.unrec('C15.H', f'{name}: {len(rets)} value returns ({"; ".join(norm(r.value)[:40] for r in rets)}): not a thin wrapper any more', lf.mod.rel)
             continue
-        got = norm(rets[0].value)
+        from .c03 import inline
+        ldefs = {}
+        for a in walk_no_nested(lf.func):
+            if isinstance(a, ast.Assign) and len(a.targets) == 1 and isinstance(a.targets[0], ast.Name) and a.targets[0].id not in (lf.targets or []):
+                ldefs[a.targets[0].id] = None if a.targets[0].id in ldefs else a.value
+        got = norm(inline(rets[0].value, {k: v for k, v in ldefs.items() if v is not None}))
         accepted = [f.format(*lf.targets) for f in forms]
         # reassigned arguments (e.g. end = len(x) when None) are part of the documented default handling; other rewrites are not
         if got in accepted:
             chk.ok('C15.H', f'{name} = {got}')
-        else:
+        elif any(a in got for a in accepted):
             chk.bad('C15.H', lf.mod, lf.pyname, f'{name}: {got[:80]}',
-                    f'{name} must be the host operation {accepted[0]} of its validated arguments (the reference list/dict/str model); it returns {got[:80]}', node=rets[0])
+                    f'{name} post-processes the result of the host operation {accepted[0]} ({got[:80]}): it no longer returns what the reference list/dict/str model gives '
+                    f'(e.g. empty parts or elements are dropped)', node=rets[0])
+        elif isinstance(rets[0].value, ast.Call) and isinstance(rets[0].value.func, ast.Attribute) and norm(rets[0].value.func.value) == lf.targets[0] \
+                and any(a.startswith(lf.targets[0] + '.') for a in accepted):
+            chk.bad('C15.H', lf.mod, lf.pyname, f'{name}: {got[:80]}',
+                    f'{name} must be the host operation {accepted[0]} of its validated arguments; it calls {got[:80]}', node=rets[0])
+        else:
+            chk.unrec('C15.H', f'{name}: return expression {got[:80]} is not a recognised form of {accepted[0]}', lf.mod.rel)
     stmt_forms = {
         'arraySet': ('{0}[int({1})] = {2}', 'the store array[int(index)] = value'),
         'arrayDelete': ('del {0}[int({1})]', 'del array[int(index)]'),
